@@ -17,8 +17,9 @@ from checks.common import verdict
 # they appear with is_admin = 1 only; every identity here is relayed (200) when it is the one in force.
 DOWN = "10.9.8.7:81"       # nothing listens there: the upstream connect made at accept time fails -> 502
 IDENTITIES = [(IMDS, 1), (IMDS, 0), (OTHER, 1), (OTHER, 0), (LOCAL_OTHER, 1), (LOCAL_OTHER, 0),
-              (WIRESERVER, 1), (HOSTGA, 1), (DOWN, 1), (DOWN, 0)]
+              (WIRESERVER, 1), (HOSTGA, 1), (DOWN, 1), (DOWN, 0), (WIRESERVER, 0), (HOSTGA, 0)]
 DOWN_IDS = {8, 9}
+FORBIDDEN_IDS = {10, 11}    # not elevated at a root-only endpoint: refused with 403 for THIS connection's identity (C03)
 PORT_POOL = [p for p in range(11000, 17900)]
 
 
@@ -48,6 +49,8 @@ def gen_history(rng, idx, concurrent):
         # 0 requests: connect, wait until accepted, close (sequential histories only)
         k = 0 if (not concurrent and rng.random() < 0.15) else rng.randint(1, 5)
         c = {"id": i + 1, "port": ports[i], "rec": None, "nreq": k, "fail": False, "pre": False, "late": None}
+        if k == 0 and rng.random() < 0.5:
+            c["extra"] = {"reset_after_connect": True}        # RST right after the handshake instead of FIN
         if has_rec:
             c["rec"] = ids[nxt]
             nxt += 1
@@ -66,9 +69,10 @@ def gen_history(rng, idx, concurrent):
     return {"idx": idx, "concurrent": concurrent, "conns": conns}
 
 
-def ident_audit(rec, pid=None):
+def ident_audit(rec, pid=None, uid=None):
     dest, adm = IDENTITIES[rec]
-    return audit(dest, uid=0 if adm else e2e.NOBODY_UID, pid=pid or ("self" if rec % 2 == 0 else "helper"), is_admin=adm)
+    return audit(dest, uid=(0 if adm else e2e.NOBODY_UID) if uid is None else uid,
+                 pid=pid or ("self" if rec % 2 == 0 else "helper"), is_admin=adm)
 
 
 def to_scenario(h):
@@ -91,7 +95,7 @@ def to_scenario(h):
                 after.append({"op": "insert_audit", "port": c["port"], "audit": ident_audit(c["late"][1])})
             after += (c.get("req_after") or {}).get(j, [])
             reqs.append(req(raw, ops_after=after) if after else req(raw))
-        a = ident_audit(c["rec"], c.get("pid")) if (c["rec"] is not None and not c.get("pre")) else None
+        a = ident_audit(c["rec"], c.get("pid"), c.get("uid")) if (c["rec"] is not None and not c.get("pre")) else None
         knobs = {}
         if c["fail"] != failing:
             knobs["ops_before_connect"] = [{"op": "fail_remove", "value": c["fail"]}]
@@ -143,7 +147,50 @@ def choreographies():
                 "scenario_extra": {"exec_helpers": {"h1": ["tail", "-f", "/dev/null"]}},
                 "conns": [C(1, 3992, 0, 2, pid="h1"), C(2, 3993, 2, 3, pid="h1", extra={"ops_before_connect": [{"op": "helper_exec", "name": "h1"}]}),
                           C(3, 3992, None, 1)]})
+    # (d) an attributed client resets its connection right after the handshake; its record must be consumed all the
+    #     same, and the direct connection that reuses the port is unattributed
+    out.append({"idx": 910004, "concurrent": False, "conns": [
+        C(1, 3994, 0, 0, extra={"reset_after_connect": True}), C(2, 3994, None, 2),
+        C(3, 3995, 6, 0, extra={"reset_after_connect": True}), C(4, 3995, None, 1), C(5, 3995, 2, 1)]})
+    # (e) two identities at the same root-only endpoint, in both orders: each judged by its own
+    out.append({"idx": 910005, "concurrent": False, "conns": [
+        C(1, 3996, 6, 2), C(2, 3997, 10, 2), C(3, 3996, 6, 1), C(4, 3998, 11, 1), C(5, 3997, 7, 2), C(6, 3998, 11, 1)]})
+    out.append({"idx": 910006, "concurrent": False, "conns": [
+        C(1, 3996, 10, 1), C(2, 3997, 6, 2), C(3, 3996, 11, 1), C(4, 3998, 7, 1)]})
+    # (f) more distinct users than any plausible user cache holds, then returning users: the user part of the identity
+    #     of every connection is the one of ITS uid
+    conns = [C(1, 5000, 1, 1, uid=e2e.NOBODY_UID), C(2, 5001, 1, 1, uid=1)]
+    for i in range(300):
+        conns.append(C(3 + i, 5002 + i, 1, 1, uid=100000 + i))
+    conns += [C(303, 5400, 0, 1, uid=0), C(304, 5401, 1, 2, uid=e2e.NOBODY_UID), C(305, 5402, 1, 1, uid=1), C(306, 5403, 0, 1, uid=0),
+              C(307, 5404, 1, 1, uid=100000)]
+    out.append({"idx": 910007, "concurrent": False, "users": True, "conns": conns,
+                "scenario_extra": {"scenario_timeout_ms": 300000}})
     return out
+
+
+def user_name(uid):
+    import pwd
+    try:
+        return pwd.getpwuid(uid).pw_name
+    except KeyError:
+        return "undefined"
+
+
+def user_check(h, r):
+    """(f): the user part of the identity, as the agent's connection summary shows it per forwarded request"""
+    want, have = {}, {}
+    for c in h["conns"]:
+        if c["rec"] is not None and c.get("uid") is not None:
+            n = user_name(c["uid"])
+            want[n] = want.get(n, 0) + c["nreq"]
+    for e in (r.get("summary") or {}).get("ok") or []:
+        if e.get("responseStatus", "").startswith("200"):
+            have[e["userName"]] = have.get(e["userName"], 0) + e["count"]
+    if have != want:
+        return ("after %d distinct uids the forwarded requests are attributed to users %r, the uids' users are %r" % (
+            len({c.get("uid") for c in h["conns"]}), sorted(have.items()), sorted(want.items())))
+    return None
 
 
 def exec_check(h, r):
@@ -257,6 +304,8 @@ def expected_obs(ctx_ident):
         return (421, None)
     if ctx_ident in DOWN_IDS:
         return (502, None)          # attributed, but the destination was unreachable at accept time
+    if ctx_ident in FORBIDDEN_IDS:
+        return (403, None)          # attributed, decided for its own (not elevated) identity
     return (200, ctx_ident)
 
 
@@ -272,6 +321,12 @@ def property_check(h, r, obs):
                 if ident is not None or st != 502:
                     return "request %d on connection %d (own record %r, unreachable) was answered %s%s" % (
                         j, c["id"], IDENTITIES[c["rec"]], st, "" if ident is None else " and relayed under %r" % (ident,))
+            elif c["rec"] is not None and c["rec"] in FORBIDDEN_IDS:
+                # own identity is not elevated at a root-only endpoint: judged by ITS identity -> 403, nothing relayed,
+                # whoever else reached that endpoint before
+                if ident is not None or st != 403:
+                    return "request %d on connection %d (own record %r, not elevated) was answered %s%s" % (
+                        j, c["id"], IDENTITIES[c["rec"]], st, "" if ident is None else " and relayed")
             elif c["rec"] is not None:
                 # the kernel recorded an identity for this very connection: every request on it is
                 # decided with exactly that identity
@@ -295,6 +350,8 @@ def property_check(h, r, obs):
                 "history: %r" % (r["audit_map"],))
     if h.get("exec"):
         return exec_check(h, r)
+    if h.get("users"):
+        return user_check(h, r)
     return None
 
 
